@@ -329,7 +329,11 @@ StopFor(h, stops, i0) == MinOfSet({ s \in stops : s >= i0 }, h.lastRound + 1)
 RECURSIVE RRScan(_, _, _, _, _)
 RRScan(D, h, x, i, stop) ==
     IF i >= stop /\ i > h.lb THEN -1
-    ELSE IF i > h.lastRound \/ i \notin DOMAIN h.R THEN -1
+    ELSE IF i > h.lastRound THEN -1
+    \* a round that is not known at all: skipped at or below the lower bound (after
+    \* a fast-forward the rounds between an old event's round and the anchor are
+    \* missing - fix "missing rounds below the lower bound"), a stop above it
+    ELSE IF i \notin DOMAIN h.R THEN (IF i <= h.lb THEN RRScan(D, h, x, i + 1, stop) ELSE -1)
     ELSE
     LET Ri == h.R[i]
         n  == Cardinality(Members(h, i))
@@ -548,7 +552,11 @@ Reset(D, h, blk, fr) ==
         h0 == [ base EXCEPT !.ps = fr.psets,
                             !.frames = (fr.round :> fr),
                             !.sigpool = h.sigpool,          \* PendingSignatures is not cleared by Reset
-                            !.validators = fr.peers,        \* core.fastForward
+                            \* core.fastForward: the latest set of the frame's peer-set history
+                            \* (before fix "validators after fast-forward": fr.peers, the set
+                            \* effective at the frame's round - see MUT_ffValidators in DESIGN.md)
+                            !.validators = IF DOMAIN fr.psets = {} THEN fr.peers
+                                           ELSE fr.psets[MaxOfSet(DOMAIN fr.psets, 0)],
                             !.selfSigs = h.selfSigs,
                             !.removedRound = h.removedRound,
                             !.targetRound = h.targetRound,
